@@ -7,7 +7,7 @@ drawn number of scheduler events while a heartbeat task keeps running on the loo
 import asyncio
 import threading
 
-from props.common import Injected, Obj
+from props.common import Injected, InjectedBase, Obj
 from props.scopes import capture, family, make_state
 from sim import threads
 from sim.loop import SimStop
@@ -50,7 +50,7 @@ class C18(Prop):
         T0 = fam["types"][0]
         kind = KINDS[s.draw(len(KINDS), "kind")]
         shape = s.draw(3, "shape")
-        raises = s.chance(1, 3, "raises")
+        raises = s.weighted((4, 2, 1), "raises")  # 0 value, 1 Exception, 2 BaseException subclass
         depth = s.draw(4, "depth")
         nest = [s.draw(2, "nest-kind") for _ in range(depth)]
         leak = bool(s.draw(2, "leak"))
@@ -67,7 +67,7 @@ class C18(Prop):
         jobs = threads.install(sim, default_ex)
         loop_thread = threading.get_ident()
         result_obj = Obj("result")
-        exc_obj = Injected("boom")
+        exc_obj = InjectedBase("boom") if raises == 2 else Injected("boom")
         seen = {"calls": 0, "thread": None, "args": None, "state": None, "parked": 0, "beats_while_parked": 0}
         hb = {"n": 0, "parked_now": False}
         is_method = kind.endswith("-method")
